@@ -384,7 +384,8 @@ ENGINES = ['sqlite', 'sqlite', 'psql', 'duckdb', 'bigquery']
 def gen_request(r, scratch, idx):
   """A generated program (files on disk under scratch) and its compilable predicates."""
   kind = r.choice(['nonrec', 'nonrec', 'rec', 'rec', 'functor', 'imports', 'imports', 'incant',
-                   'needs_incant', 'bad', 'flags', 'dialect_rec', 'typed', 'typed', 'attach_rel'])
+                   'needs_incant', 'bad', 'flags', 'dialect_rec', 'typed', 'typed', 'attach_rel',
+                   'combine', 'combine'])
   root = None
   flags = None
   bad = False
@@ -450,6 +451,20 @@ def gen_request(r, scratch, idx):
     # valid only with the experimental syntax switched on; a parse error otherwise
     text = '@Engine("sqlite");\n`---`(left:, right:) = left * 10 + right;\nT(1 --- 2);\nU(x) :- T(x);\n'
     preds = ['T', 'U']
+  elif kind == 'combine':
+    # aggregating expressions (combines) with their own variables, nested through functions,
+    # shared between several predicates of one program
+    a, b, c = r.randint(1, 9), r.randint(1, 9), r.randint(2, 5)
+    eng = r.choice(['sqlite', 'sqlite', 'psql', 'duckdb'])
+    text = ('@Engine("%s");\n' % eng +
+            'A(t) = Sum{ y :- y in [t, %d] };\n' % a +
+            'B(x) = Sum{ A(y) + y :- y in [x, %d] };\n' % b +
+            'L(x) = List{ z * %d :- z in [x, 2, 3] };\n' % c +
+            'D(1); D(2); D(%d);\n' % c +
+            'PA(A(1));\nPB(B(2));\nPL(x, L(x)) :- D(x);\n'
+            'PC(x, s) :- D(x), s += (v + x :- v in [x, %d]);\n' % a +
+            'PN(x, m) :- D(x), m Max= (A(w) :- w in [x, %d]);\n' % b)
+    preds = r.sample(['PA', 'PB', 'PL', 'PC', 'PN'], 4)
   elif kind == 'attach_rel':
     # a database attached by a relative file name: the SQL must carry exactly that name
     text = ('@Engine("sqlite");\n@AttachDatabase("logica_home", "people.db");\n@Ground(G);\n'
@@ -567,6 +582,8 @@ def gen_history(r, pool):
       ops.append(['parse', pi])
     elif k == 'sql_again' and len(preds) >= 2:
       a, b = r.sample(preds, 2)
+      if r.random() < 0.3:
+        b = a          # the very same predicate a second time on the same LogicaProgram
       ops.append(['sql_again', pi, a, b])
     elif k == 'compile_reuse' and compiled and r.random() < 0.8:
       pj = r.choice(compiled)
